@@ -52,7 +52,9 @@ def stepC07 (s : DSt) (op : String) (got : String) : StepResult DSt :=
     | some n, some f, some w =>
       let fresh := msNs f
       let wasCached := s.m.cs.has n
-      let m' := insertData (fun _ => false) s.m n w fresh
+      -- the decoder keeps a FreshnessPeriod in a time.Duration: a millisecond count beyond what it can hold is the
+      -- largest one it can (F-07c); the SPECIFICATION below counts with the period that is on the wire
+      let m' := insertData (fun _ => false) s.m n w (msNs (min f 9223372036854))
       -- spec side
       let r := refOf s.cap0 s.hist
       let isNew := !memb n r.order
